@@ -25,7 +25,7 @@ import math
 import random
 from unittest import mock
 
-from . import common
+from . import common, c16_tie
 from .common import zlit, lst, blit, natlit
 
 HEADER = """From Coq Require Import List ZArith Bool.
@@ -874,6 +874,26 @@ def run(ctx) -> int:
                 common.log(f"shard {p} failed:\n{out[-1200:]}")
                 ctx.broken.append(f"correspondence lemma shard_ok in {p.split('/')[-1]}")
                 disagree.append(p)
+        # second tie between model and code: the source of the pure integer functions is translated to
+        # Gallina now and proved equal to the model (c16_tie.py).  A broken source tie alone is no alarm
+        # (a refactoring may leave the translated subset); it is named beside a behavioural disagreement.
+        try:
+            tie = c16_tie.run(ctx, common.REPO)
+        except Exception as ex:      # optional evidence: never turns into an alarm by itself
+            tie = {"translated": [], "lemmas_ok": False, "lemmas": [], "not_tied": {"all": f"{type(ex).__name__}: {ex}"},
+                   "detail": "SOURCE TIE BROKEN: the tie step aborted; the verdict rests on the behavioural correspondence"}
+        ctx.cov["source_tie"] = tie
+        for sec, why in sorted(tie["not_tied"].items()):
+            ctx.hist("T.source_tie_broken." + sec)
+        ctx.hist("T.source_tie_lemmas", len(tie["lemmas"]))
+        if not tie["lemmas_ok"] and (fails or disagree):
+            ctx.broken.append("source tie (py2gallina): " + "; ".join(f"{k}: {v}" for k, v in sorted(tie["not_tied"].items()))[:600])
+    else:
+        ctx.cov["source_tie"] = {"translated": [], "lemmas_ok": False, "detail": "not attempted: the Coq build failed"}
+    ctx.extra_tb = getattr(ctx, "extra_tb", []) + [
+        "source tie: tools/py2gallina.py (Python ast -> Gallina for EpochManager.append, stan_epochs, EpochType.is_warmup / "
+        "is_adaptation, EpochState.time_left / advance_time; fails closed outside its subset), the assumption that Python ints are "
+        "unbounded Z and that the translated subset has its usual meaning; result of this run in coverage.source_tie"]
     ctx.tested_not_proved.append("stan_epochs is a pure function of its arguments: every call is repeated after an in-place "
                                  "edit of the returned list and EpochConfig objects; both results must equal the model")
     ctx.tested_not_proved.append(f"{len(fcases)} real engines (RWKernel, one chain) built by EngineBuilder sample all epochs; "
